@@ -29,7 +29,10 @@ EXPLANATION = (
     'the heights, appended last (E3); the contraction pairs weights with the '
     '(extended) kernel over the keypoint axis (E4); missing inputs are '
     'imputed with complementary weights is_missing / (1 - is_missing) and the '
-    'learned missing output is created only when no fixed one is given (E5); '
+    'learned missing output is created only when no fixed one is given, and '
+    'in each input form (single tensor, [inputs, is_missing]) the result '
+    'depends on every configured source of missingness - the flag tensor '
+    'and the comparison with missing_input_value (E5); '
     'keypoints_outputs() is the cumulative sum of the kernel rows with the '
     'first output repeated when cyclic (E3); categorical inputs equal to '
     'default_input_value are mapped to the last bucket and looked up by a '
@@ -45,6 +48,12 @@ class _Unrecognised(Exception):
 
 
 def run(prog, res):
+  from ..rules import dtypes, validate
+  dtypes.selfcheck()
+  _cl = validate.call_closure(prog, [prog.function(q) for q in ('pwl_calibration_layer.PWLCalibration.call', 'categorical_calibration_layer.CategoricalCalibration.call')],
+                              follow_init=False)
+  dtypes.check_functions(prog, res, [f for _, f in sorted(_cl.items())])
+  res.floor('D1', 5)
   steps = [
       ('E1', 'pwl_calibration_lib.compute_interpolation_weights', _weights),
       ('E2', PL + '.build', _fixed_keypoints),
@@ -73,7 +82,8 @@ def run(prog, res):
   res.floor('E2', 6)
   res.floor('E3', 2)
   res.floor('E4', 2)
-  res.floor('E5', 2)
+  _missing_sources(prog, res)
+  res.floor('E5', 5)
   res.floor('E6', 4)
 
 
@@ -379,17 +389,18 @@ def _missing(prog, fn):
   gs = structural_guards(fn.node, target) or []
   if not any(dotted(t) == 'self.impute_missing' and p for t, p in gs):
     probs.append('imputation is not under `if self.impute_missing`')
-  im = [s for s in ast.walk(fn.node) if isinstance(s, ast.Assign)
-        and dotted(s.targets[0]) == 'is_missing' and isinstance(
-            s.value, ast.Call)]
-  ok = False
-  for s in im:
-    for c in ast.walk(s.value):
-      if _ext(prog, fn, c) == 'tf.equal' and [dotted(a) for a in c.args] == [
-          'inputs', 'self._missing_input_value_tensor']:
-        ok = True
-  if not ok:
-    probs.append('is_missing is not tf.equal(inputs, missing input value)')
+  # the value test compares the raw inputs with the configured value (that it
+  # reaches the result in every input form is the missing-sources clause)
+  eqs = [c for c in ast.walk(fn.node) if isinstance(c, ast.Call) and
+         _ext(prog, fn, c) == 'tf.equal' and
+         'self._missing_input_value_tensor' in [dotted(a) for a in c.args]]
+  if not eqs:
+    probs.append('no tf.equal(inputs, missing input value) test is left')
+  for c in eqs:
+    if sorted(dotted(a) or '?' for a in c.args) != [
+        'inputs', 'self._missing_input_value_tensor']:
+      probs.append('the missing value is compared with `%s`, not with the '
+                   'raw inputs' % norm_text(c)[:60])
   return [('imputation', 'missing inputs -> missing_output, others keep the '
            'calibrated value', probs)]
 
@@ -545,3 +556,56 @@ def _categorical(prog, fn):
               'axis are both the bucket axis 1')
   items.append(('multi-unit', 'per-unit lookup over the bucket axis', p4))
   return items
+
+
+def _missing_sources(prog, res):
+  """E5 (sources): "inputs flagged missing OR equal to missing_input_value"
+  - in every accepted input form the returned value must depend on each
+  configured source.  Decided by the must-depend influence analysis of
+  rules/influence.py on PWLCalibration.call (undecided validation raises
+  are not taken, other undecided tests meet both branches)."""
+  from ..rules import influence as inf
+  fn = prog.function(PL + '.call')
+  res.analysed(fn)
+  forms = {
+      'tensor': lambda: inf.V(inf.TENSOR, ()),
+      'pair': lambda: inf.V([inf.V(inf.TENSOR, ()),
+                             inf.V(inf.TENSOR, {'is_missing'})], ()),
+  }
+  for form, mk in sorted(forms.items()):
+    for value_given in (True, False):
+      if form == 'tensor' and not value_given:
+        continue        # rejected by call(): nothing to impute from
+      env = {
+          'self': inf.V(inf.UNK),
+          'inputs': mk(),
+          'self.impute_missing': inf.V(True),
+          'self.missing_input_value':
+              inf.V(inf.GIVEN, {'missing_input_value'}) if value_given
+              else inf.V(None),
+          'self._missing_input_value_tensor':
+              inf.V(inf.GIVEN, {'missing_input_value'}) if value_given
+              else inf.V(None),
+      }
+      it = inf.Interp(prog, strict=False)
+      out = it.run(fn, env)
+      out = inf._join(out)
+      need = set()
+      if form == 'pair':
+        need.add('is_missing')
+      if value_given:
+        need.add('missing_input_value')
+      key = '%s|missing-sources|%s,missing_input_value=%s' % (
+          fn.qualname, form, 'set' if value_given else 'None')
+      lack = sorted(need - set(out.infl))
+      res.check(not lack, 'E5', key, fn.loc(),
+                'the output depends on %s' % ', '.join(sorted(need)),
+                'with inputs given as %s and missing_input_value %s the '
+                'output does not depend on %s: inputs %s are not replaced by '
+                'the missing output' % (
+                    'one tensor' if form == 'tensor' else
+                    '[inputs, is_missing]',
+                    'configured' if value_given else 'None',
+                    ' / '.join(lack),
+                    'equal to missing_input_value but not flagged'
+                    if 'missing_input_value' in lack else 'flagged missing'))
